@@ -6,7 +6,8 @@
    xsd:date, xsd:time, xsd:dateTime on forms of the XSD shape, under the guard that python's datetime can carry
    the value                                                         - tie C09_temporal_spec_ok_model.
    DIFFERENTIAL TESTING ONLY (harness/c09.py suite `conformance`: rdflib against an oracle written in Python, no
-   model, no theorem; C09_conformance_glue is bookkeeping): xsd:float / xsd:double beyond the special values,
+   model, no theorem; C09_conformance_glue is bookkeeping): xsd:float / xsd:double outside the exact fragment of
+   FloatModel.v (tie C09_double_spec_ok_model_partial covers INF, -INF, NaN, signed zero, integers below 2^53),
    the three duration types, xsd:language, xsd:anyURI, rdf:XMLLiteral, python float / timedelta / Duration / bytes
    values, gYear / gYearMonth lexicalisation, date/time forms of other ISO 8601 shapes.
    Open findings: F14b (C09_decimal_nan_refuted), F14f (bytes, conformance), F14g (C09_temporal_outside_guard_refuted
@@ -15,6 +16,7 @@ From Coq Require Import List NArith ZArith Bool.
 Import ListNotations.
 From RV Require Import Literal.Model Literal.Token Literal.Proofs Literal.Decimal Literal.Tie.
 From RV Require Import Literal.BinaryModel Literal.BinaryProofs Literal.TemporalModel Literal.TemporalProofs.
+From RV Require Import Literal.FloatModel Literal.FloatProofs.
 
 (* ---------------- integer datatypes ---------------- *)
 
@@ -367,6 +369,30 @@ Theorem C09_temporal_outside_guard_refuted :
       xsd_tvalue TTime l <> None /\ t_val (tconstruct TTime l true) = Some (VTime 12 0 0 123456 None)).
 Proof. exact temporal_outside_guard_refuted. Qed.
 Print Assumptions C09_temporal_outside_guard_refuted.
+
+(* ---------------- xsd:double / xsd:float, the exact fragment (coq/Literal/FloatModel.v) ---------------- *)
+
+(* INF, -INF, NaN, signed zero and integer-valued doubles below 2^53: float() reads back what _float_lexical writes,
+   the written form is in the XSD lexical space and denotes the value; every valid form of the fragment
+   (optional sign, digits, optionally a point and zeros, optionally a non-negative exponent; value below 2^53;
+   or INF, +INF, -INF, NaN) is read with exactly the XSD
+   value, the sign of zero included; construction, normalize() and re-reading *)
+Theorem C09_double_faithful_partial : double_faithful.
+Proof. exact double_faithful_all. Qed.
+Print Assumptions C09_double_faithful_partial.
+
+(* python's == on these values is XSD equality of doubles (NaN <> NaN, +0 = -0) *)
+Theorem C09_double_eq_vs_value_partial : forall a b x y,
+  fdenotes a x = true -> fdenotes b y = true -> fval_eq a b = xf_eqb x y.
+Proof. exact fval_eq_xsd. Qed.
+Print Assumptions C09_double_eq_vs_value_partial.
+
+(* the tie for the double suite, on the fragment (fwf: the lexical forms are in the fragment, python values are
+   special or integer-valued below 2^53).  Missing: every other double - fractions, negative exponents, values that
+   need rounding, repr()'s shortest-digits printing - stays differential testing (suite conformance) *)
+Theorem C09_double_spec_ok_model_partial : forall c, fwf c = true -> fspec_ok c (fmodel_obs c) = true.
+Proof. exact fspec_ok_model_partial. Qed.
+Print Assumptions C09_double_spec_ok_model_partial.
 
 (* non-vacuity: valid non-canonical forms are in scope, the checker rejects wrong answers *)
 Example C09_nonvacuous :
